@@ -24,7 +24,7 @@ TraceInit ==
   /\ l = 1 /\ drift = 0 /\ viol = {}
   /\ has = {} /\ bel = [n \in Node |-> {}] /\ up = {}
   /\ at = "" /\ fwd = FALSE /\ hops = 0 /\ runs = [n \in Node |-> 0]
-  /\ outcome = "" /\ servedBy = "" /\ entry = "" /\ ext = FALSE
+  /\ outcome = "" /\ servedBy = "" /\ entry = "" /\ ext = "none"
 
 BelOf(e) ==
   [n \in Node |-> IF \E i \in DOMAIN e.bel : e.bel[i].n = n
@@ -36,7 +36,7 @@ RunsOf(e) ==
 \* what Proxy.tla allows for this configuration
 Possible(h, b, en, x) ==
   IF en \in h THEN {<<"served", en>>}
-  ELSE IF x \/ b[en] = {} THEN {<<"502", "">>}
+  ELSE IF x = "forged" \/ b[en] = {} THEN {<<"502", "">>}
   ELSE {IF m \in h THEN <<"served", m>> ELSE <<"502", "">> : m \in b[en]}
 
 PlacedFor(e, target) == {e.placed[i].u : i \in {j \in DOMAIN e.placed : e.placed[j].e = target}}
@@ -58,7 +58,7 @@ TraceNext ==
         /\ bel' = IF route THEN BelOf(e) ELSE [n \in Node |-> {}]
         /\ up' = IF route THEN SetOf(e.nodes) ELSE {}
         /\ entry' = IF route THEN e.entry ELSE ""
-        /\ ext' = IF route THEN e.ext ELSE FALSE
+        /\ ext' = IF route THEN e.ext ELSE "none"
         /\ at' = "" /\ fwd' = FALSE
         /\ runs' = IF route THEN RunsOf(e) ELSE [n \in Node |-> 0]
         /\ hops' = IF route
